@@ -33,7 +33,7 @@ ASSUMPTIONS = [
     'built graphs compared by canonical form with behavioural probing of partials',
 ]
 BUDGET = {'quick': 16 * 400, 'thorough': 16 * 10000}
-FLOORS = {'has_tags': 0.4, 'tagged_edit': 0.15, 'shared_container': 0.12}
+FLOORS = {'has_tags': 0.4, 'tagged_edit': 0.15, 'shared_container': 0.078}
 
 DEEP = ['deepcopy', 'pickle', 'deepcopy_with']
 SHALLOW = ['copy', 'copy_with', 'cast_Config', 'cast_Partial', 'cast_ArgFactory']
